@@ -864,7 +864,17 @@ func translateLocals(p *packages.Package, fd *ast.FuncDecl, tg target) (defs []s
 					}
 				}()
 				var pre []string
-				v, k := t.expr(as.Rhs[i], &pre)
+				rhs := as.Rhs[i]
+				switch as.Tok {
+				case token.ASSIGN, token.DEFINE:
+				case token.ADD_ASSIGN:
+					rhs = &ast.BinaryExpr{X: as.Lhs[i], Op: token.ADD, Y: rhs, OpPos: as.TokPos} // x += e is x = x + e
+				case token.SUB_ASSIGN:
+					rhs = &ast.BinaryExpr{X: as.Lhs[i], Op: token.SUB, Y: rhs, OpPos: as.TokPos}
+				default:
+					t.fail(as, "assignment operator %s", as.Tok)
+				}
+				v, k := t.expr(rhs, &pre)
 				var sb strings.Builder
 				for _, l := range pre {
 					sb.WriteString("  " + l + "\n")
